@@ -332,6 +332,55 @@ def dynCalls : List (String × Nat × Nat) := [("CBlock.Walk", 1, 0), ("ChainDat
     expected none -/
 def rmwSplits : List (String × String) := []
 
+/-- functions that can return still holding a lock they took (expected: only the deliberate lock-handing wrapper) -/
+def lockLeaks : List (String × String) := [("TrieDatabase.Lock", "TrieDatabase.lock")]
+
+/-- lock-order edges (A, B): B is taken while A may be held (A held at the Lock() statement or by some caller path);
+    at least one of the two is a lock of chain/consensus, store, chain/deputynode.  (A, A) = per-TYPE re-acquisition
+    (different instances / over-approximated interface calls). -/
+def lockOrder : List (String × String) := [
+  ("BitCask.RW", "BitCask.RW"),
+  ("BitCask.RW", "FileQueue.IndexRW"),
+  ("BitCask.RW", "rlp.typeCacheMutex"),
+  ("ChainDatabase.BizRW", "BitCask.RW"),
+  ("ChainDatabase.BizRW", "ChainDatabase.RW"),
+  ("ChainDatabase.BizRW", "FileQueue.IndexRW"),
+  ("ChainDatabase.BizRW", "rlp.typeCacheMutex"),
+  ("ChainDatabase.RW", "BitCask.RW"),
+  ("ChainDatabase.RW", "FileQueue.IndexRW"),
+  ("ChainDatabase.RW", "FileQueue.putLock"),
+  ("ChainDatabase.RW", "rlp.typeCacheMutex"),
+  ("DPoVP.chainLock", "BitCask.RW"),
+  ("DPoVP.chainLock", "ChainDatabase.RW"),
+  ("DPoVP.chainLock", "Confirmer.lastSigLock"),
+  ("DPoVP.chainLock", "FileQueue.IndexRW"),
+  ("DPoVP.chainLock", "FileQueue.putLock"),
+  ("DPoVP.chainLock", "Manager.lock"),
+  ("DPoVP.chainLock", "MemDatabase.lock"),
+  ("DPoVP.chainLock", "TrieDatabase.lock"),
+  ("DPoVP.chainLock", "TxGuard.RW"),
+  ("DPoVP.chainLock", "TxPool.RW"),
+  ("DPoVP.chainLock", "TxProcessor.lock"),
+  ("DPoVP.chainLock", "consensus.sigCacheMu"),
+  ("DPoVP.chainLock", "rlp.typeCacheMutex"),
+  ("FileQueue.putLock", "FileQueue.IndexRW"),
+  ("FileQueue.putLock", "rlp.typeCacheMutex"),
+  ("Node.lock", "BitCask.RW"),
+  ("Node.lock", "ChainDatabase.RW"),
+  ("Node.lock", "FileQueue.IndexRW"),
+  ("Node.lock", "MemDatabase.lock"),
+  ("Node.lock", "TrieDatabase.lock"),
+  ("TxProcessor.lock", "BitCask.RW"),
+  ("TxProcessor.lock", "ChainDatabase.RW"),
+  ("TxProcessor.lock", "FileQueue.IndexRW"),
+  ("TxProcessor.lock", "Manager.lock"),
+  ("TxProcessor.lock", "MemDatabase.lock"),
+  ("TxProcessor.lock", "TrieDatabase.lock")
+]
+
+/-- a topological order of the locks: every edge of lockOrder other than the (A, A) ones goes forward in it -/
+def lockRank : List String := ["ChainDatabase.BizRW", "DPoVP.chainLock", "Confirmer.lastSigLock", "Node.lock", "TxGuard.RW", "TxPool.RW", "TxProcessor.lock", "ChainDatabase.RW", "BitCask.RW", "FileQueue.putLock", "FileQueue.IndexRW", "Manager.lock", "MemDatabase.lock", "TrieDatabase.lock", "consensus.sigCacheMu", "rlp.typeCacheMutex"]
+
 /-- head reads that are deliberately made before the chain lock is taken (see the header) -/
 def benignPrechecks : List String := ["DPoVP.InsertBlock/DPoVP.isIgnorableBlock"]
 
